@@ -5,23 +5,31 @@ only (links as a native executable).
 -/
 import Driver.Index
 import Driver.Construct
+import Driver.Hist
 
 open Driver
 
-def dispatch (ws : List String) : String :=
+def dispatch (w : World) (ws : List String) : World × String :=
   match (cmdIndex ws <|> cmdConstruct ws) with
-  | some s => s
-  | none => "bad-op"
+  | some s => (w, s)
+  | none =>
+    match stepHist w ws with
+    | some r => r
+    | none => (w, "bad-op")
 
-partial def loop (h : IO.FS.Stream) (out : IO.FS.Stream) : IO Unit := do
+partial def loop (h : IO.FS.Stream) (out : IO.FS.Stream) (w : World) : IO Unit := do
   let line ← h.getLine
   if line.isEmpty then return ()
   let l := line.trimAscii.toString
-  if l.startsWith "#" then out.putStrLn l
-  else out.putStrLn (dispatch (l.splitOn " "))
-  loop h out
+  if l.startsWith "#" then
+    out.putStrLn l
+    loop h out w
+  else
+    let (w', s) := dispatch w (l.splitOn " ")
+    out.putStrLn s
+    loop h out w'
 
 def main : IO Unit := do
   let out ← IO.getStdout
-  loop (← IO.getStdin) out
+  loop (← IO.getStdin) out {}
   out.flush
